@@ -293,6 +293,72 @@ theorem scheduled_next_batch (b B W : Nat) (hW : 0 < W) (hB : 0 < B) :
   have : (b / W + 1) * B = b / W * B + B := by rw [Nat.add_mul, Nat.one_mul]
   omega
 
+/-! ### the schedule's length: `n_batches` is the true number of batches of the run -/
+
+/-- number of batches needed to cover `n` samples with batches of `B` (the last one possibly short) is the least
+    `k` with `k * B ≥ n` -/
+theorem ceil_batches_least (n B : Nat) (hB : 0 < B) :
+    n ≤ (n + B - 1) / B * B ∧ ∀ k, n ≤ k * B → (n + B - 1) / B ≤ k := by
+  constructor
+  · have h := Nat.div_add_mod (n + B - 1) B
+    have hm := Nat.mod_lt (n + B - 1) hB
+    rw [Nat.mul_comm] at h
+    omega
+  · intro k hk
+    have : n + B - 1 < (k + 1) * B := by
+      rw [Nat.add_mul, Nat.one_mul]; omega
+    exact Nat.lt_succ_iff.mp ((Nat.div_lt_iff_lt_mul hB).mpr this)
+
+/-- with `epochs`: every epoch contributes exactly the number of batches a rank iterates (`⌊n/W⌋` samples per rank:
+    all full batches under `drop_last`, one more for a short last batch otherwise — and none more when the
+    rank's length is an exact multiple of the batch size) -/
+theorem nBatches_epochs (e n W B : Nat) (hB : 0 < B) :
+    nBatches B (.epochs e n W true) = e * (n / W / B) ∧
+    nBatches B (.epochs e n W false) = e * ((n / W + B - 1) / B) ∧
+    ((n / W) % B = 0 → nBatches B (.epochs e n W false) = nBatches B (.epochs e n W true)) ∧
+    ((n / W) % B ≠ 0 → nBatches B (.epochs e n W false) = e * (n / W / B + 1)) := by
+  refine ⟨by simp [nBatches], by simp [nBatches], ?_, ?_⟩
+  · intro hm
+    simp only [nBatches, if_true, Bool.false_eq_true, if_false]
+    congr 1
+    have h := Nat.div_add_mod (n / W) B
+    rw [hm, Nat.add_zero] at h
+    have h2 : n / W + B - 1 = (B - 1) + B * (n / W / B) := by omega
+    rw [h2, Nat.add_mul_div_left _ _ hB, Nat.div_eq_of_lt (by omega)]
+    omega
+  · intro hm
+    simp only [nBatches, Bool.false_eq_true, if_false]
+    congr 1
+    have h := Nat.div_add_mod (n / W) B
+    have hlt := Nat.mod_lt (n / W) hB
+    have h2 : n / W + B - 1 = ((n / W) % B - 1) + B * (n / W / B + 1) := by
+      rw [Nat.mul_add, Nat.mul_one]; omega
+    rw [h2, Nat.add_mul_div_left _ _ hB, Nat.div_eq_of_lt (by omega)]
+    omega
+
+/-- with `samples`: the least number of batches of `B` that reaches the sample budget -/
+theorem nBatches_samples (s B : Nat) (hB : 0 < B) :
+    s ≤ nBatches B (.samples s) * B ∧ ∀ k, s ≤ k * B → nBatches B (.samples s) ≤ k := by
+  have h := Nat.div_add_mod s B
+  have hlt := Nat.mod_lt s hB
+  simp only [nBatches]
+  by_cases hm : s % B = 0
+  · simp only [hm, if_true]
+    constructor
+    · rw [Nat.mul_comm]; omega
+    · intro k hk
+      have : s / B * B ≤ k * B := by rw [Nat.mul_comm (s / B)]; omega
+      exact Nat.le_of_mul_le_mul_right this hB
+  · simp only [hm, if_false]
+    constructor
+    · rw [Nat.add_mul, Nat.one_mul, Nat.mul_comm]; omega
+    · intro k hk
+      have : s / B * B < k * B := by rw [Nat.mul_comm (s / B)]; omega
+      have := Nat.lt_of_mul_lt_mul_right this
+      omega
+
+theorem nBatches_updates (u B : Nat) : nBatches B (.updates u) = u := rfl
+
 /-- non-vacuity: brightness=0.4 gives the range [0.6, 1.4] -/
 example : (0 : Rat) ≤ (Range.mk0 (3/5) (7/5)).ogLb ∧ (Range.mk0 (3/5) (7/5)).ogLb ≤ 1 ∧ 1 ≤ (Range.mk0 (3/5) (7/5)).ogUb := by
   simp only [Range.mk0]; refine ⟨by norm_num, by norm_num, by norm_num⟩
